@@ -180,16 +180,12 @@ INTERVAL_PROPS = {"C01", "C10", "C13", "C14"}
 
 # ------------------------------------------------------------------------------------------- running
 def run_both(scripts, profile="debug"):
-    text = "".join(s.text() for s in scripts)
-    rc1, out1 = C.run_side("impl", profile, text)
-    rc2, out2 = C.run_side("model", profile, text)
-    return C.split_outputs(out1), C.split_outputs(out2)
+    t = int(os.environ.get("VERIF_RUN_TIMEOUT", "3600"))
+    return C.run_sharded("impl", profile, scripts, timeout=t), C.run_sharded("model", profile, scripts, timeout=t)
 
 
 def run_impl(scripts, profile="debug"):
-    text = "".join(s.text() for s in scripts)
-    rc1, out1 = C.run_side("impl", profile, text)
-    return C.split_outputs(out1)
+    return C.run_sharded("impl", profile, scripts, timeout=int(os.environ.get("VERIF_RUN_TIMEOUT", "3600")))
 
 
 def compare(pid, scripts, impl, model):
@@ -415,7 +411,7 @@ def main():
                 proof = {"ok": False, "n_theorems": 0, "n_discharged": 0, "axioms": [], "problems": ["constants could not be generated"]}
             if proof["ok"] and tier == "thorough":
                 # independent re-check of the compiled theorems and everything they depend on
-                rc, out = C.run(["coqchk", "-o", "-silent", "-Q", C.COQ, "SU", "SU.Props." + pid], cwd=C.COQ,
+                rc, out = C.run(["coqchk", "-o", "-silent", "-Q", C.COQ, "SU"] + ["SU.Props." + os.path.basename(pf)[:-2] for pf in C.props_files(pid)], cwd=C.COQ,
                                 timeout=int(os.environ.get("VERIF_COQCHK_TIMEOUT", "600")))
                 C.log("coqchk_%s.log" % pid, out)
                 bad = []
@@ -578,8 +574,11 @@ def main():
     for s in scripts[:2] + scripts[n_corpus:n_corpus + 1]:
         samples.append({"id": s.sid, "ops": s.ops[:12] + (["... (%d ops)" % len(s.ops)] if len(s.ops) > 12 else []),
                         "impl_out": impl.get(s.sid, [])[:4]})
-    with open(os.path.join(C.COQ, "Props", pid + ".v")) as fh:
-        thm_names = re.findall(r"^\s*Theorem\s+([A-Za-z_][\w']*)", C.strip_coq_comments(fh.read()), re.M) if os.path.exists(os.path.join(C.COQ, "Props", pid + ".v")) else []
+    thm_names = []
+    for pf in C.props_files(pid):
+        if os.path.exists(pf):
+            with open(pf) as fh:
+                thm_names += re.findall(r"^\s*Theorem\s+([A-Za-z_][\w']*)", C.strip_coq_comments(fh.read()), re.M)
     evidence = {
         "property_id": pid,
         "tier": tier,
@@ -659,4 +658,9 @@ def replay(pid, path):
 
 
 if __name__ == "__main__":
-    sys.exit(main())
+    try:
+        sys.exit(main())
+    except C.ModelTimeout as exc:
+        # a failure of the tooling, not a verdict: no VIOLATION line
+        print("check could not complete: %s (raise VERIF_RUN_TIMEOUT)" % exc)
+        sys.exit(2)
